@@ -13,7 +13,8 @@
    written raw, [measure] Vaxis' own RenderedWidth; the hypothesis adv_ok links them for the
    cells that are written raw (what the capability negotiation is for). *)
 From Vx Require Import base.Prelude base.ListX model.Colour model.RenderTypes model.Render model.RefTerm
-  model.RenderSpec model.RenderCheck proofs.RenderDelta proofs.RenderRow proofs.RenderFrame proofs.RenderHistory.
+  model.RenderSpec model.RenderCheck proofs.RenderDelta proofs.RenderRow proofs.RenderFrame proofs.RenderHistory
+  model.RenderBytes proofs.RenderBytesBridge proofs.RenderBytesWf.
 
 (* The pen delta written before a changed cell takes a terminal that shows style [pen] to
    one that shows style [n] and touches nothing else: for ALL pairs of styles (all 256 x 256
@@ -80,6 +81,29 @@ Theorem C01_overhang_refuted :
 Proof. vm_compute. split; [reflexivity|]. split; reflexivity. Qed.
 Print Assumptions C01_overhang_refuted.
 
+(* The wire.  The theorems above are about tokens; what reaches the terminal is bytes.  [ser]
+   writes a token the way vaxis.go does (format strings translated from sequences.go on every
+   run), [ser_bytes] is its UTF-8 encoding, [toks_of_bytes] is the parser model of C02 (proved
+   equal to the VT500 reference machine) followed by the reading of each delivered sequence
+   (the Coq twin of the harness tokenizer).  For every token list of the renderer's vocabulary
+   the bytes are read back as exactly those tokens - text one code point at a time, which the
+   comparison used in the differential run ([toks_eqb]: adjacent raw text joined) cannot tell
+   from the original; where the terminal cuts adjacent text into clusters is its own business
+   (oracle [tw]).  No sequence swallows or corrupts its neighbour: the parser is back in a clean
+   ground state after every token. *)
+Theorem C01_tokens_survive_the_wire : forall ks, toks_wfb ks = true ->
+  toks_of_bytes (ser_bytes ks) = explode ks /\ toks_eqb (toks_of_bytes (ser_bytes ks)) ks = true.
+Proof. intros ks H. split; [exact (bytes_roundtrip ks H)|exact (bytes_roundtrip_eqb ks H)]. Qed.
+Print Assumptions C01_tokens_survive_the_wire.
+
+(* ... and every frame of every history is in that vocabulary when the application's content is
+   printable: graphemes, hyperlinks and pointer shape free of C0 controls and surrogates,
+   hyperlink parameters free of ';', cursor inside the non-negative quadrant. *)
+Theorem C01_frame_bytes_read_back : forall s ops e, content_wf (fold_left apply_op ops s) ->
+  toks_eqb (toks_of_bytes (ser_bytes (snd (do_frame s ops e)))) (snd (do_frame s ops e)) = true.
+Proof. intros s ops e H. apply bytes_roundtrip_eqb. apply frame_ok_wf. exact H. Qed.
+Print Assumptions C01_frame_bytes_read_back.
+
 (* non-vacuity: a history with wide, zero-width and styled cells, a cursor, a refresh and a
    resize satisfies every hypothesis and the executable form of the conclusion *)
 Example C01_example :
@@ -103,3 +127,15 @@ Example C01_example :
   c01_holds {| h_caps := cp; h_rows := 2; h_cols := 3; h_widths := wt;
                h_frames := fill (vinit cp 2 3) (h_frames h) |} = true.
 Proof. vm_compute. reflexivity. Qed.
+
+(* non-vacuity of the wire theorems: the frames of the example above have printable content *)
+Example C01_wire_example :
+  let cp := {| cap_rgb := true; cap_styled_ul := true; cap_sync := true; cap_explicit_width := true |} in
+  let st := {| s_fg := rgb_color 1 2 3; s_bg := index_color 200; s_ul := index_color 3; s_uls := 3; s_attr := 6;
+               s_link := [104; 116; 116; 112; 58; 47; 47; 120]; s_linkp := [105; 100; 61; 49] |} in
+  let wide := {| c_g := [28450]; c_w := 0; c_mw := 2; c_st := st; c_sixel := false |} in
+  let s1 := fold_left apply_op [OSet 0 0 wide; OShowCursor 1 1 4; OMouseShape [116; 101; 120; 116]] (vinit cp 2 3) in
+  forallb (forallb cell_wfb) (v_next s1) = true /\ cursor_wfb (v_cnext s1) = true /\
+  toks_wfb (snd (do_render s1)) = true /\
+  toks_of_bytes (ser_bytes (snd (do_render s1))) = explode (snd (do_render s1)).
+Proof. vm_compute. repeat split; reflexivity. Qed.
